@@ -105,6 +105,7 @@ def main():
                 continue
             futs[ex.submit(run_one, e, props, a.tier)] = e
         killed = survived = silent = alarms = 0
+        sibling_only = []
         for f in concurrent.futures.as_completed(futs):
             e = futs[f]
             eid, res = f.result()
@@ -118,11 +119,17 @@ def main():
                 ok = bool(flagged)
                 if ok: killed += 1
                 else: survived += 1
-                print(f"{eid:42s} mutant[{tag:8s}] {'KILLED  ' if ok else 'SURVIVED'} expected {e.get('expected_rule','')}: {flagged}")
+                note = ''
+                if ok and not own and e['property'] in res:
+                    sibling_only.append(eid)
+                    note = '  [not under its own property ' + e['property'] + ']'
+                print(f"{eid:42s} mutant[{tag:8s}] {'KILLED  ' if ok else 'SURVIVED'} expected {e.get('expected_rule','')}: {flagged}{note}")
             else:
                 if flagged: alarms += 1
                 else: silent += 1
                 print(f"{eid:42s} benign           {'ALARM   ' if flagged else 'silent  '} {flagged}")
+        if sibling_only:
+            print("reported, but not by the check of the property they were written against: " + ", ".join(sorted(sibling_only)))
         print(f"mutants killed={killed} survived={survived}; benign silent={silent} alarms={alarms}")
 
 if __name__ == '__main__':
